@@ -14,7 +14,7 @@ from . import common, gast, modes, refpeg
 
 
 class Spec:
-    __slots__ = ("rules", "starts", "inputs", "kmode", "family", "_text", "_model", "raw")
+    __slots__ = ("rules", "starts", "inputs", "kmode", "family", "_text", "_model", "raw", "cache")
 
     def __init__(self, rules, starts, inputs, kmode="zero", family=""):
         self.rules = tuple(rules)
@@ -25,6 +25,7 @@ class Spec:
         self._text = None
         self._model = None
         self.raw = False            # True when the grammar text was given directly (no gast rules)
+        self.cache = {}             # per-spec scratch for checks (never keyed on id(): ids are reused)
 
     @property
     def text(self) -> str:
@@ -80,6 +81,10 @@ class Check:
     def judge(self, spec, tab, model_obs, out):
         """tab[mode][(rule, text, k)] -> obs; model_obs[(rule, text, k)] -> obs or None. Append failures to out."""
         raise NotImplementedError
+
+    def plain(self, obs):
+        """The plain modes.observe() observation inside whatever observe() returned (for coverage counts)."""
+        return obs
 
     def on_build(self, spec, mode, parser, out):
         """Hook after a parser/module for `mode` is built (C01 uses it for generate() checks)."""
@@ -177,6 +182,7 @@ def _worker(rng):
         else:
             first = tabs[i].get(want[0], {})
             for key, obs in first.items():
+                obs = check.plain(obs)
                 if obs[0] == "ok":
                     stats["impl_ok"] += 1
                     if obs[1]:
